@@ -5,7 +5,7 @@ import vlib, mirrorcheck
 META = {
     "level": "model_checking",
     "text": "Message/schedule part: every TODO/BUG panic and non-terminating loop of the mirror kernel and of the Handle* callers is an explicit `pan` outcome of Mirror.tla; TLC explores a message universe covering every class of consensus message (proposed header, prevote, precommit, replayed header, state machine entrance/action) at every position relative to the node (heights voting-1..voting+2 and 0, rounds 0..voting+3, every proof shape incl. malformed key ids, empty proofs, foreign proposers) and reports NoPanic counterexamples; the behaviours, panicking ones included, are replayed on a real Mirror running in child processes: a death of the process, a panic in the calling goroutine, a Handle* call that does not return and a mirror that stops answering VotingView are violations, attributed to the last input and fingerprinted by panic site. Configuration part (Config.tla, Mapper.tla): every subset/order of constructor options for tmengine.New and tmengine.NewMirror and every result value through both feedback mappers (see checks/c09_config.py). Generation additionally: exhaustive covers of the focused worlds (rounds; shrinking/growing validator set) and the concurrent-caller driver MirrorConcMC.tla -- two Handle*Proofs calls parked between their two phases, and a caller whose context ends while the kernel is inside its add request (the harness holds the round store write): the mirror must keep serving.",
-    "note": "Sequential inputs; races between Handle* callers and view shifts (addFuture* TODO panics) are modelled but replayed only where the gate hooks can force them. libp2p and codec inputs belong to C14/C20. Slow strategy/driver callbacks belong to the state-machine harness (C08). Bounded as C01 with heights 0..3, rounds 0..3.",
+    "note": "Races between Handle* callers and view shifts are driven through the gate hooks: a FUTURE-round vote parked between its view lookup and the kernel's addFuture* request while another caller moves the voting round there or commits the height (Mirror.tla AddFutureRace; this found the addFuture* TODO panic, repaired in 532f5aa). libp2p and codec inputs belong to C14/C20. Slow strategy/driver callbacks belong to the state-machine harness (C08). Bounded as C01 with heights 0..3, rounds 0..3.",
     "technique": "TLA+ specs (Mirror.tla panic outcomes; Config.tla; Mapper.tla) + TLC exhaustive bounded check + replay on the real code in crash-isolated child processes",
 }
 
